@@ -1,7 +1,7 @@
 import Gen.BaseRead
 import GeffProofs.PartialRead
 import GeffProofs.SerializationGen
-/-! Helper lemmas: the source-translated reader `Gen.BaseRead.*` (translator T15) equals the
+/-! Helper lemmas: the source-translated reader `Gen.BaseRead.*` (translator T20, `harness/translators/t20_pydo_base_read.py`) equals the
 hand-written model `Geff.PRead.*` of `GeffModel/PartialRead.lean`.  Straight-line code is unfolded;
 each generated `for` loop is characterised by a hand-written one-step specification plus an
 induction over the list, the generated loop body being consumed by unification (as in
@@ -339,4 +339,234 @@ theorem pruneLoop_spec (get : GMeta → List (String × PropMeta)) (set : GMeta 
         refine ⟨p, ⟨hp, ?_⟩, hpx⟩
         simp at hpx
         simp [hpx, hxk]
+/-! ## `build` -/
+
+def toGen (g : InMem) : GInMem :=
+  { metadata := ⟨g.nodeMeta, g.edgeMeta, g.metaRest⟩, nodeIds := ⟨[], g.nodeIds⟩,
+    nodeProps := toGenProps g.nodeProps, edgeIds := ⟨[2], g.edgeIds⟩, edgeProps := toGenProps g.edgeProps }
+
+theorem hasKey_of_mem_keys {β} {k : String} {d : List (String × β)} (h : k ∈ keys d) : hasKey k d = true :=
+  (hasKey_iff k d).2 h
+
+theorem prune_filter (md : List (String × PropMeta)) (loaded : List (String × ZarrProp)) :
+    md.filter (fun p => !((keys md).contains p.1 && !(keys loaded).contains p.1)) = pruneMeta md loaded := by
+  unfold pruneMeta
+  apply List.filter_congr
+  intro p hp
+  have hm : p.1 ∈ keys md := List.mem_map.2 ⟨p, hp, rfl⟩
+  simp [hm, hasKey_eq_contains]
+
+/-- everything after the edge selection in `build`: the edge property loop and the two pruning loops -/
+theorem build_tail (cast : Dtype → Val → Val) (r : Reader) (m' : Option (List Bool)) (nodesA : NArr Int)
+    (np : List (String × GMemProp)) (edgesOut : NArr (Int × Int))
+    (b1 : String × ZarrProp → List (String × GMemProp) → Res (ForInStep (List (String × GMemProp))))
+    (b2 b3 : String → GMeta → Res (ForInStep GMeta))
+    (h1 : ∀ q acc, b1 q acc = propStep cast r.store.edgeMeta m' q acc)
+    (h2 : ∀ p om, b2 p om = pruneStep (·.nodePropsMetadata) (fun s d => { s with nodePropsMetadata := d })
+      (keys r.nodeProps) p om)
+    (h3 : ∀ p om, b3 p om = pruneStep (·.edgePropsMetadata) (fun s d => { s with edgePropsMetadata := d })
+      (keys r.edgeProps) p om)
+    (he : (keys r.edgeProps).Nodup) (hmn : (keys r.store.nodeMeta).Nodup) (hme : (keys r.store.edgeMeta).Nodup)
+    (hte : TablesOk cast r.store.edgeMeta r.edgeProps) :
+    (do let s1 ← forIn r.edgeProps [] b1
+        let s2 ← forIn (keys r.store.nodeMeta)
+          ({ nodePropsMetadata := r.store.nodeMeta, edgePropsMetadata := r.store.edgeMeta, rest := r.store.metaRest } : GMeta) b2
+        let s3 ← forIn (keys r.store.edgeMeta) s2 b3
+        pure ({ metadata := s3, nodeIds := nodesA, nodeProps := np, edgeIds := edgesOut, edgeProps := s1 } : GInMem))
+    = (fun ep => ({ metadata := ⟨pruneMeta r.store.nodeMeta r.nodeProps, pruneMeta r.store.edgeMeta r.edgeProps, r.store.metaRest⟩,
+                    nodeIds := nodesA, nodeProps := np, edgeIds := edgesOut, edgeProps := toGenProps ep } : GInMem))
+        <$> loadProps cast r.store.edgeMeta m' r.edgeProps := by
+  rw [propLoop_spec cast r.store.edgeMeta m' b1 h1 r.edgeProps he hte [] (by simp [keys])]
+  have l2 := pruneLoop_spec (·.nodePropsMetadata) (fun s d => { s with nodePropsMetadata := d }) (fun _ _ => rfl)
+    (fun _ _ _ => rfl) (keys r.nodeProps) b2 h2 (keys r.store.nodeMeta) hmn
+    ⟨r.store.nodeMeta, r.store.edgeMeta, r.store.metaRest⟩ r.store.nodeMeta (fun k hk => hasKey_of_mem_keys hk)
+  have l3 := pruneLoop_spec (·.edgePropsMetadata) (fun s d => { s with edgePropsMetadata := d }) (fun _ _ => rfl)
+    (fun _ _ _ => rfl) (keys r.edgeProps) b3 h3 (keys r.store.edgeMeta) hme
+    ⟨pruneMeta r.store.nodeMeta r.nodeProps, r.store.edgeMeta, r.store.metaRest⟩ r.store.edgeMeta
+    (fun k hk => hasKey_of_mem_keys hk)
+  simp only [prune_filter] at l2 l3
+  cases loadProps cast r.store.edgeMeta m' r.edgeProps with
+  | error e => rfl
+  | ok ep =>
+    simp only [map_ok, ok_bind, List.nil_append]
+    rw [l2]; simp only [ok_bind]; rw [l3]; rfl
+
+theorem endpointsIn_length (nodes : List Int) (edges : List (Int × Int)) : (endpointsIn nodes edges).length = edges.length := by
+  simp [endpointsIn]
+
+theorem maskToIndices_len {em : Option (List Bool)} {n : Nat} {ei} (h : Geff.PRead.maskToIndices em n = .ok ei) :
+    ∀ m, em = some m → m.length = n := by
+  intro m hm; subst hm
+  simp only [Geff.PRead.maskToIndices] at h
+  by_cases hl : m.length = n
+  · exact hl
+  · simp [hl] at h
+
+theorem build_fin (cast : Dtype → Val → Val) (r : Reader) (nodes : List Int) (np : List (String × MemProp))
+    (m' : Option (List Bool)) :
+    (fun ep => ({ metadata := ⟨pruneMeta r.store.nodeMeta r.nodeProps, pruneMeta r.store.edgeMeta r.edgeProps, r.store.metaRest⟩,
+                  nodeIds := ⟨[], nodes⟩, nodeProps := toGenProps np, edgeIds := ⟨[2], (match m' with | some m => filterByMask r.store.edges m | none => r.store.edges)⟩,
+                  edgeProps := toGenProps ep } : GInMem))
+        <$> loadProps cast r.store.edgeMeta m' r.edgeProps
+    = toGen <$> (do
+        let edgeProps ← loadProps cast r.store.edgeMeta m' r.edgeProps
+        pure { nodeIds := nodes,
+               edgeIds := (match m' with | some m => filterByMask r.store.edges m | none => r.store.edges),
+               nodeProps := np, edgeProps := edgeProps, nodeMeta := pruneMeta r.store.nodeMeta r.nodeProps,
+               edgeMeta := pruneMeta r.store.edgeMeta r.edgeProps, metaRest := r.store.metaRest }) := by
+  cases loadProps cast r.store.edgeMeta m' r.edgeProps <;> rfl
+
+theorem build_eq (cast : Dtype → Val → Val) (r : Reader) (nm em : Option (List Bool))
+    (hn : (keys r.nodeProps).Nodup) (he : (keys r.edgeProps).Nodup)
+    (hmn : (keys r.store.nodeMeta).Nodup) (hme : (keys r.store.edgeMeta).Nodup)
+    (htn : TablesOk cast r.store.nodeMeta r.nodeProps) (hte : TablesOk cast r.store.edgeMeta r.edgeProps) :
+    Gen.BaseRead.build cast r nm em = toGen <$> Geff.PRead.build cast r nm em := by
+  unfold Gen.BaseRead.build Geff.PRead.build
+  have hs : shapeAt (selfNodes r).shape 0 = .ok r.store.ids.length := rfl
+  rw [hs]
+  simp only [ok_bind, maskToIndices_eq, loadZarrSubset_eq]
+  cases hni : Geff.PRead.maskToIndices nm r.store.ids.length with
+  | error e => rfl
+  | ok ni =>
+    simp only [ok_bind, selfNodes]
+    cases hnodes : Geff.PRead.loadZarrSubset r.store.ids ni with
+    | error e => rfl
+    | ok nodes =>
+      simp only [ok_bind, packRows, Except.map]
+      rw [propLoop_spec cast r.store.nodeMeta nm _ ?hs1 r.nodeProps hn htn [] (by simp [keys])]
+      case hs1 => intro q acc; rfl
+      cases hnp : loadProps cast r.store.nodeMeta nm r.nodeProps with
+      | error e => rfl
+      | ok np =>
+        simp only [map_ok, ok_bind, List.nil_append]
+        have hs2 : shapeAt (npAsarray (zarrGetAll (selfEdges r))).shape 0 = .ok r.store.edges.length := rfl
+        rw [hs2]
+        simp only [ok_bind]
+        cases hei : Geff.PRead.maskToIndices em r.store.edges.length with
+        | error e => rfl
+        | ok ei =>
+          have hel := maskToIndices_len hei
+          simp only [ok_bind, dictKeys, selfMetadata, deepcopy, npAsarray, zarrGetAll, selfEdges]
+          have fin := build_fin cast r nodes np
+          cases nm with
+          | none =>
+            simp only [Option.isSome_none, Bool.false_eq_true, if_false, combineEdgeMask]
+            cases em with
+            | none =>
+              simp only [getSel, ok_bind]
+              rw [build_tail cast r none _ _ _ _ _ _ ?h1 ?h2 ?h3 he hmn hme hte]
+              case h1 => intro _ _; rfl
+              case h2 => intro _ _; rfl
+              case h3 => intro _ _; rfl
+              exact fin none
+            | some m =>
+              have hm := hel m rfl
+              simp only [getSel, boolIndex, hm, if_true, ok_bind]
+              rw [build_tail cast r (some m) _ _ _ _ _ _ ?h1 ?h2 ?h3 he hmn hme hte]
+              case h1 => intro _ _; rfl
+              case h2 => intro _ _; rfl
+              case h3 => intro _ _; rfl
+              exact fin (some m)
+          | some nmv =>
+            simp only [Option.isSome_some, if_true, combineEdgeMask]
+            cases em with
+            | none =>
+              simp only [getSel, boolIndex, isinAllAxis1, endpointsIn_length, if_true, ok_bind]
+              rw [build_tail cast r (some (endpointsIn nodes r.store.edges)) _ _ _ _ _ _ ?h1 ?h2 ?h3 he hmn hme hte]
+              case h1 => intro _ _; rfl
+              case h2 => intro _ _; rfl
+              case h3 => intro _ _; rfl
+              exact fin (some _)
+            | some m =>
+              have hm := hel m rfl
+              have hz : (List.zipWith (· && ·) m (endpointsIn nodes r.store.edges)).length = r.store.edges.length := by
+                simp [endpointsIn_length, hm]
+              simp only [npLogicalAnd, isinAllAxis1, endpointsIn_length, hm, if_true, ok_bind, getSel, boolIndex, hz]
+              rw [build_tail cast r (some (List.zipWith (· && ·) m (endpointsIn nodes r.store.edges))) _ _ _ _ _ _ ?h1 ?h2 ?h3 he hmn hme hte]
+              case h1 => intro _ _; rfl
+              case h2 => intro _ _; rfl
+              case h3 => intro _ _; rfl
+              exact fin (some _)
+/-! ## `read_node_props`, `read_edge_props` (state monad) -/
+
+/-- how a `read_*_props` call of the hand-written model (new reader, pending exception) is packaged
+by the state monad of the generated code -/
+def packRead (x : Reader × Option Err) : Except Err Unit × Reader :=
+  match x.2 with
+  | none => (.ok (), x.1)
+  | some e => (.error e, x.1)
+
+theorem rdm_bind {α β} (x : RdM α) (f : α → RdM β) (r : Reader) :
+    (x >>= f) r = match x r with
+      | (.ok a, r') => f a r'
+      | (.error e, r') => (.error e, r') := rfl
+
+/-- one iteration of `for name in names: self.…_props[name] = self._read_prop(name, …)` -/
+def readStep (t : PropType) (name : String) : RdM (ForInStep PUnit) := do
+  let self ← getSelf
+  let zp ← liftRes (readProp self name t)
+  match t with
+  | .node => setNodeProps (dictSet self.nodeProps name zp)
+  | .edge => setEdgeProps (dictSet self.edgeProps name zp)
+  pure (ForInStep.yield PUnit.unit)
+
+theorem readLoopN_spec (body : String → PUnit → RdM (ForInStep PUnit))
+    (hstep : ∀ n u, body n u = readStep .node n) (ns : List String) :
+    ∀ r : Reader, forIn ns PUnit.unit body r =
+      (match (readLoop r.store.nodeProps r.nodeProps ns).2 with
+        | none => .ok PUnit.unit
+        | some e => .error e,
+       { r with nodeProps := (readLoop r.store.nodeProps r.nodeProps ns).1 }) := by
+  induction ns with
+  | nil => intro r; rfl
+  | cons n t ih =>
+    intro r
+    rw [List.forIn_cons, hstep, rdm_bind]
+    simp only [readStep, rdm_bind, getSelf, liftRes, readProp, readLoop]
+    cases hl : lookup n r.store.nodeProps with
+    | none => rfl
+    | some zp =>
+      simp only [setNodeProps, pure]
+      rw [ih]
+      rfl
+
+theorem readLoopE_spec (body : String → PUnit → RdM (ForInStep PUnit))
+    (hstep : ∀ n u, body n u = readStep .edge n) (ns : List String) :
+    ∀ r : Reader, forIn ns PUnit.unit body r =
+      (match (readLoop r.store.edgeProps r.edgeProps ns).2 with
+        | none => .ok PUnit.unit
+        | some e => .error e,
+       { r with edgeProps := (readLoop r.store.edgeProps r.edgeProps ns).1 }) := by
+  induction ns with
+  | nil => intro r; rfl
+  | cons n t ih =>
+    intro r
+    rw [List.forIn_cons, hstep, rdm_bind]
+    simp only [readStep, rdm_bind, getSelf, liftRes, readProp, readLoop]
+    cases hl : lookup n r.store.edgeProps with
+    | none => rfl
+    | some zp =>
+      simp only [setEdgeProps, pure]
+      rw [ih]
+      rfl
+
+theorem readNodeProps_eq (names : Option (List String)) (r : Reader) :
+    Gen.BaseRead.readNodeProps names r = packRead (Geff.PRead.readNodeProps r names) := by
+  unfold Gen.BaseRead.readNodeProps
+  rw [rdm_bind]
+  simp only [getSelf, rdm_bind]
+  rw [readLoopN_spec _ ?h]
+  case h => intro _ _; rfl
+  simp only [Geff.PRead.readNodeProps, packRead, selfNodePropNames]
+  cases (readLoop r.store.nodeProps r.nodeProps (names.getD (keys r.store.nodeProps))).2 <;> rfl
+
+theorem readEdgeProps_eq (names : Option (List String)) (r : Reader) :
+    Gen.BaseRead.readEdgeProps names r = packRead (Geff.PRead.readEdgeProps r names) := by
+  unfold Gen.BaseRead.readEdgeProps
+  rw [rdm_bind]
+  simp only [getSelf, rdm_bind]
+  rw [readLoopE_spec _ ?h]
+  case h => intro _ _; rfl
+  simp only [Geff.PRead.readEdgeProps, packRead, selfEdgePropNames]
+  cases (readLoop r.store.edgeProps r.edgeProps (names.getD (keys r.store.edgeProps))).2 <;> rfl
 end GeffProofs.BaseReadGen
